@@ -29,10 +29,15 @@ const SX1276_RF_MID_BAND_THRESH: u32 = 525_000_000;
 
 // Frequency synthesizer step: FXOSC (32 MHz) / 524288 (2^19) = 61.03515625 Hz
 fn freq_to_pll_step(freq_in_hz: u32) -> u32 {
-    // Full-precision integer form of freq / 61.03515625. The previous
-    // truncate-then-shift shortcut zeroed the low 8 pll-step bits, putting
-    // fractional-MHz channels (868.1, 903.9, ...) up to ~15 kHz off.
-    (((freq_in_hz as u64) << 19) / 32_000_000) as u32
+    // Integer form of freq / 61.03515625 rounded to the nearest PLL step, exactly as in
+    // Semtech's reference driver (sx127x_convert_freq_in_hz_to_pll_step). Plain truncation
+    // programs a word one step low for channels such as 903.9 MHz.
+    const PLL_STEP_SHIFT_AMOUNT: u32 = 8;
+    const PLL_STEP_SCALED: u32 = 32_000_000 >> (19 - PLL_STEP_SHIFT_AMOUNT);
+    let steps_int = freq_in_hz / PLL_STEP_SCALED;
+    let steps_frac = freq_in_hz - (steps_int * PLL_STEP_SCALED);
+    (steps_int << PLL_STEP_SHIFT_AMOUNT)
+        + (((steps_frac << PLL_STEP_SHIFT_AMOUNT) + (PLL_STEP_SCALED >> 1)) / PLL_STEP_SCALED)
 }
 
 fn pll_step_to_freq(pll_step: u32) -> u32 {
